@@ -126,6 +126,13 @@ func main() {
 		}
 	}
 	var execs, states, bBlocked, bFinished, noVerdict int64
+	threeStepRuns := 0
+	replayThree := false
+	if r.Replay != "" {
+		var w3 witness3
+		lib.LoadReplay(r.Replay, &w3)
+		replayThree = w3.Kind == "three-step"
+	}
 	var samples lib.Samples
 	exhaustive := true
 	for si, sc := range scs {
@@ -278,11 +285,21 @@ func main() {
 		}
 		close(ch)
 		wg.Wait()
+		if sc.famB != nil && (r.Replay == "" || replayThree) {
+			n3, ex3 := threeStep(r, e, sc.fam, pre, src, args, argsB, keys, clean, plzVos)
+			atomic.AddInt64(&execs, int64(n3))
+			atomic.AddInt64(&states, int64(3*n3))
+			threeStepRuns += n3
+			if !ex3 {
+				exhaustive = false
+			}
+		}
 		os.RemoveAll(e.Root)
 	}
 	r.Assume = []string{
 		"granularity: mutating file-system operations of plz itself (os.* / xattr.* in src/fs, cache, build, core, test); instruction-level races inside one operation or inside the kernel are out of reach",
 		"schedules: process A preempted once, before each of its operations in turn; B runs in the gap until it exits or sleeps in flock() (detected from /proc/<pid>/task/*/stack); with two invocations of the same command the two role assignments are symmetric",
+		"three-step schedules (scenarios in which A and B build different targets that share output files): A is preempted twice (before operation i and before a later operation j on the shared output paths), B once (before each of its operations on those paths, or not at all) in between: A..i | B..b | A i..j | B b..end | A j..end; quick: i = each removal of a shared file, j = the operation that re-creates it; thorough: every pair i<j",
 		"each invocation uses -n 2, so operation order inside one process varies between runs: pause points are named by operation identity (i-th occurrence of `op path` of a lone dry run), not by number; a pause point that an invocation does not reach lets it run to its end (B then runs after A)",
 	}
 	r.Finish(lib.Coverage{
@@ -294,6 +311,184 @@ func main() {
 		Transitions:        int(execs),
 		TracesValidated:    int(execs),
 		Exhaustive:         exhaustive && noVerdict == 0,
-		Extra:              map[string]any{"schedules_without_verdict_horizon_hit": noVerdict, "b_finished_in_gap": bFinished, "b_blocked_on_a_lock_held_by_a": bBlocked, "scenarios": len(scs)},
+		Extra:              map[string]any{"schedules_without_verdict_horizon_hit": noVerdict, "b_finished_in_gap": bFinished, "b_blocked_on_a_lock_held_by_a": bBlocked, "scenarios": len(scs), "three_step_schedules": threeStepRuns},
 	})
+}
+
+// sharedOp reports whether a pause-point key names an operation on one of the output files the two invocations share.
+func sharedOp(key string) bool { return strings.Contains(key, "plz-out/gen/p/") }
+
+func opOf(key string) string {
+	if f := strings.Fields(key[strings.IndexByte(key, ':')+1:]); len(f) > 0 {
+		return f[0]
+	}
+	return ""
+}
+
+func lastPath(key string) string {
+	f := strings.Fields(key)
+	return f[len(f)-1]
+}
+
+func waitReached(p *proc, pd string, also func() bool, horizon time.Duration) {
+	deadline := time.Now().Add(horizon)
+	for !p.finished() && time.Now().Before(deadline) {
+		if _, err := os.Stat(filepath.Join(pd, "reached")); err == nil {
+			return
+		}
+		if also != nil && also() {
+			return
+		}
+		time.Sleep(3 * time.Millisecond)
+	}
+}
+
+type witness3 struct {
+	Family  string   `json:"family"`
+	Pre     []string `json:"pre_history"`
+	Kind    string   `json:"schedule"` // three-step
+	A1      string   `json:"a_first_pause_point"`
+	A2      string   `json:"a_second_pause_point"`
+	B       string   `json:"b_pause_point,omitempty"`
+	BBuilds string   `json:"b_builds"`
+}
+
+// threeStep: A..i | B..b | A i..j | B b..end | A j..end over the operations on the shared output files.
+func threeStep(r *lib.Run, e *hist.Engine, fam hist.Family, pre string, src hist.Src, args, argsB, keys []string, clean *hist.Obs, plzVos string) (int, bool) {
+	// B's own operations, from a lone dry run of B
+	dry := filepath.Join(e.Root, "dryB")
+	hist.CopyTree(pre, dry)
+	tf := filepath.Join(e.Root, "dryB.trace")
+	bp := start(plzVos, dry, argsB, []string{"VOS_TRACE=" + tf})
+	<-bp.done
+	if bp.exit != 0 {
+		lib.Fatal("dry run of B failed: %s", bp.out.String())
+	}
+	tb, _ := os.ReadFile(tf)
+	keysB := []string{""}
+	count := map[string]int{}
+	for _, l := range strings.Split(strings.TrimSpace(string(tb)), "\n") {
+		f := strings.SplitN(l, " ", 2)
+		if len(f) != 2 {
+			continue
+		}
+		k := strings.ReplaceAll(f[1], dry, "@")
+		count[k]++
+		if key := fmt.Sprintf("%d:%s", count[k], k); sharedOp(key) {
+			keysB = append(keysB, key)
+		}
+	}
+	os.RemoveAll(dry)
+	type sched struct{ a1, a2, b string }
+	var scheds []sched
+	for i, k1 := range keys {
+		if !sharedOp(k1) {
+			continue
+		}
+		for j := i + 1; j < len(keys); j++ {
+			k2 := keys[j]
+			if !sharedOp(k2) {
+				continue
+			}
+			if r.Quick() && !(opOf(k1) == "removeall" && opOf(k2) != "removeall" && lastPath(k2) == lastPath(k1)) {
+				continue
+			}
+			for _, b := range keysB {
+				scheds = append(scheds, sched{k1, k2, b})
+			}
+			if r.Quick() {
+				break // the first operation that re-creates the removed file
+			}
+		}
+	}
+	if r.Replay != "" {
+		var w witness3
+		lib.LoadReplay(r.Replay, &w)
+		scheds = []sched{{w.A1, w.A2, w.B}}
+	}
+	var mu sync.Mutex
+	n, complete := 0, true
+	ch := make(chan sched)
+	var wg sync.WaitGroup
+	for w := 0; w < 3; w++ {
+		wg.Add(1)
+		go func() {
+			defer wg.Done()
+			for sc := range ch {
+				mu.Lock()
+				n++
+				id := n
+				mu.Unlock()
+				dir := filepath.Join(e.Root, fmt.Sprintf("t%d", id))
+				hist.CopyTree(pre, dir)
+				pa1, pa2, pb := filepath.Join(dir, "pa1"), filepath.Join(dir, "pa2"), filepath.Join(dir, "pb")
+				for _, d := range []string{pa1, pa2, pb} {
+					os.MkdirAll(d, 0o755)
+				}
+				t0 := time.Now()
+				dbg := func(what string) {
+					if os.Getenv("C31_DEBUG") != "" {
+						fmt.Fprintf(os.Stderr, "[%d] %6.2fs %s\n", id, time.Since(t0).Seconds(), what)
+					}
+				}
+				dbg("start a1=" + sc.a1 + " a2=" + sc.a2 + " b=" + sc.b)
+				a := start(plzVos, dir, args, []string{"VOS_PLAN=pauseop@" + sc.a1, "VOS_NORM=" + dir, "VOS_PAUSE_DIR=" + pa1, "VOS_PAUSE2=" + sc.a2, "VOS_PAUSE_DIR2=" + pa2})
+				waitReached(a, pa1, nil, 120*time.Second)
+				dbg("A at P1 or finished")
+				var envB []string
+				if sc.b != "" {
+					envB = []string{"VOS_PLAN=pauseop@" + sc.b, "VOS_NORM=" + dir, "VOS_PAUSE_DIR=" + pb}
+				}
+				b := start(plzVos, dir, argsB, envB)
+				waitReached(b, pb, func() bool { return blockedOnFlock(b.cmd.Process.Pid) }, 120*time.Second)
+				dbg("B at PB / finished / blocked")
+				os.WriteFile(filepath.Join(pa1, "go"), nil, 0o644)
+				waitReached(a, pa2, func() bool { return blockedOnFlock(a.cmd.Process.Pid) }, 120*time.Second)
+				dbg("A at P2 / finished / blocked")
+				os.WriteFile(filepath.Join(pb, "go"), nil, 0o644)
+				waitReached(b, filepath.Join(dir, "never"), func() bool { return blockedOnFlock(b.cmd.Process.Pid) }, 120*time.Second)
+				dbg("B finished / blocked")
+				os.WriteFile(filepath.Join(pa2, "go"), nil, 0o644)
+				verdict := true
+				for _, p := range []*proc{a, b} {
+					select {
+					case <-p.done:
+					case <-time.After(240 * time.Second):
+						verdict = false
+						syscall.Kill(-p.cmd.Process.Pid, syscall.SIGKILL)
+						<-p.done
+					}
+				}
+				for _, d := range []string{pa1, pa2, pb} {
+					os.RemoveAll(d)
+				}
+				wit := witness3{Family: fam.Name(), Pre: []string{"init"}, Kind: "three-step", A1: sc.a1, A2: sc.a2, B: sc.b, BBuilds: strings.Join(argsB, " ")}
+				cls := fmt.Sprintf("%s:three-step:A-between-%s-and-%s:B-%s", fam.Name(), opOf(sc.a1), opOf(sc.a2), map[bool]string{true: "not-paused", false: "paused-before-" + opOf(sc.b)}[sc.b == ""])
+				switch {
+				case !verdict:
+					mu.Lock()
+					complete = false // horizon hit: no verdict for this schedule
+					mu.Unlock()
+				case a.exit != 0 || b.exit != 0:
+					r.Violate(strings.Replace(cls, ":three-step:", ":three-step:invocation-failed:", 1), wit, fmt.Sprintf("A runs up to its `%s`, B up to its `%s`, A on up to its `%s`, B to its end, A to its end: exit statuses A=%d B=%d\nA:\n%s\nB:\n%s", sc.a1, sc.b, sc.a2, a.exit, b.exit, a.out.String(), b.out.String()))
+				default:
+					obs := e.RunWith("/bin/true", dir, src, nil)
+					if d := hist.DiffOuts(obs, clean); d != "" {
+						r.Violate(strings.Replace(cls, ":three-step:", ":three-step:outputs-differ:", 1), wit, "final plz-out differs from a clean build:\n"+d)
+					}
+				}
+				os.RemoveAll(dir)
+			}
+		}()
+	}
+	for _, sc := range scheds {
+		if r.OutOfTime() {
+			complete = false
+			break
+		}
+		ch <- sc
+	}
+	close(ch)
+	wg.Wait()
+	return n, complete
 }
